@@ -253,9 +253,12 @@ def run_C13(ctx):
     # regex
     strs = [v for v in universe if kind_of(v) == "str"]
     import re as _re
-    for rx in gen.REGEXES:
-        for s in strs:
-            cases.append({"rules": "rule m { x == /%s/ }\nrule n { x != /%s/ }\n" % (rx, rx), "data": json.dumps({"x": s})})
+    # counted repetitions, classes, alternation, escapes: every piece of regex syntax is regex syntax (a pattern is never
+    # matched as literal text)
+    rxs = gen.REGEXES + ["a{3}", "xa{2,4}y", "ab{2}", "a{1}", "1{2}", "a|b", "a\\d", "[ab]b", "a.c", "a?b", "(ab)+", "a{3}$"]
+    for rx in rxs:
+        for s in strs + ["xaaay", "a{3}", "abb", "a{1}", "aaa", "11", "1{2}", "a|b", "a.c", "abc", "ad", "a1", "b", "abab"]:
+            cases.append({"rules": "rule m { x == /%s/ }\nrule n { x != /%s/ }\nrule i { x in [/%s/, 'zz-never'] }\n" % (rx, rx, rx), "data": json.dumps({"x": s})})
             meta.append(("regex", s, rx))
     results = vlib.correspond(cases, ctx.hp, ctx.mp)
     absorb(res, results, "C13 comparison stream")
@@ -677,9 +680,10 @@ def core_cases(seed, n):
 def single_clause_cases(ctx):
     """the exhaustive single-clause stream over a fixed value universe"""
     doc = {"k": None}
-    vals = [None, True, 0, 1, 1.5, "", "a", [], [1], [1, 2], ["a", 1], {}, {"x": 1}, [{"x": 1}, {"x": 2}], {"x": [1, 2]}]
+    vals = [None, True, 0, 1, 1.5, "", "a", [], [1], [1, 2], ["a", 1], {}, {"x": 1}, [{"x": 1}, {"x": 2}], {"x": [1, 2]},
+            -0.0, [0.0, -0.0, 1.5]]        # negative zero: equal to zero, not below it
     shapes = ["k", "k.*", "k[*]", "k[0]", "k.x", "k[ x == 1 ]", "k[*].x", "k[ x exists ].x", "zz"]
-    rhs = ["1", "2", "\"a\"", "\"\"", "1.5", "true", "null", "[1, 2]", "[1]", "[]", "r[0,1]", "{\"x\": 1}", "/a/"]
+    rhs = ["1", "2", "\"a\"", "\"\"", "1.5", "true", "null", "[1, 2]", "[1]", "[]", "r[0,1]", "{\"x\": 1}", "/a/", "0.0", "r[0.0,1.5]"]
     cases = []
     rng = random.Random(ctx.seed)
     for v in vals:
@@ -692,7 +696,7 @@ def single_clause_cases(ctx):
                         lines.append("rule u_%s { %s%s%s %s }" % (op, neg, some, sh, op))
                         lines.append("rule n_%s { %s%s%s !%s }" % (op, neg, some, sh, op))
                     cases.append({"rules": "\n".join(lines) + "\n", "data": d})
-                    sel = rhs if ctx.thorough() else rng.sample(rhs, 3)
+                    sel = rhs if ctx.thorough() else (rng.sample(rhs, 3) + (["0.0"] if isinstance(v, (float, list)) and v not in ([], [1], [1, 2]) else []))
                     for r in sel:
                         lines = []
                         for nm, o in [("eq", "=="), ("ne", "!="), ("gt", ">"), ("ge", ">="), ("lt", "<"), ("le", "<="), ("in", "in"), ("nin", "not in")]:
@@ -716,6 +720,35 @@ def run_C01(ctx):
     results2 = vlib.correspond(cases2, ctx.hp, ctx.mp)
     absorb(res, results2, "C01 core programs")
     judge_spec(ctx, res, results2, "core program")
+    # (c) the grammar above the clause level is not modelled (the Spec and the model read the PARSER's output), so the
+    # documented reading of a file is also checked on the text: clauses written outside any rule are the rule `default`
+    # - lines are AND-ed, `or` joins alternatives of one line - exactly like the same lines inside a named rule
+    import re as _re
+    cases3, pairs = [], []
+    for i in range(3000 if ctx.thorough() else 300):
+        g = gen.SG(ctx.seed * 3700001 + i, core=True)
+        d = g.doc()
+        p = g.program(d)
+        r0 = p["rules"][0]
+        if r0["lets"] or not all("\n" not in a and not _re.match(r"^(not |!)?r\d", a) and not a.lstrip().startswith(("when", "WHEN")) for l in r0["lines"] for a in l):
+            continue
+        body = "\n".join(" or ".join(l) for l in r0["lines"])
+        pairs.append((len(cases3), len(cases3) + 1))
+        cases3.append({"rules": "\n".join(p["lets"]) + "\nrule named {\n" + body + "\n}\n", "data": json.dumps(d)})
+        cases3.append({"rules": "\n".join(p["lets"]) + "\n" + body + "\n", "data": json.dumps(d)})
+    results3 = vlib.correspond(cases3, ctx.hp, ctx.mp)
+    absorb(res, results3, "C01 file-level clauses")
+    for a, b in pairs:
+        ia, ib = results3[a]["impl"], results3[b]["impl"]
+        if ia.get("kind") != "ok" or ib.get("kind") not in ("ok", "err"):
+            continue
+        res.stats["c01-file-level-compared"] += 1
+        sa = dict((n_, s_) for n_, s_ in ia["rules"]).get("named")
+        sb = (dict((base_rule_name(n_), s_) for n_, s_ in ib["rules"]).get("default") if ib.get("kind") == "ok" else "ERR")
+        if sa != sb:
+            res.judge_failures.append({"what": "the clauses give %s inside a rule and %s written at file level (the default rule)" % (sa, sb),
+                                       "class": "c01-file-level", "rules": results3[b]["case"]["rules"],
+                                       "base_rules": results3[a]["case"]["rules"], "data": results3[b]["case"]["data"]})
     for r in (results + results2)[:2]:
         res.add_sample({"rules": r["case"]["rules"][:400], "data": r["case"]["data"], "impl": r["impl"].get("rules")})
     return res
@@ -2462,7 +2495,15 @@ def run_C07(ctx):
         if i % 3 == 0:
             # a second rules file that defines the SAME rule names: renderings must agree on the union
             r2 = distinct_names_program(gen.G(ctx.seed * 1900037 + i + 500000), d, 1)[0]
+            # one rule name with a DIFFERENT outcome in each of the two files (PASS/SKIP, FAIL/SKIP, PASS/FAIL, SKIP/PASS ..)
+            zo = [("xf exists", "when zz_nothere exists { xf exists }"), ("xf !exists", "when zz_nothere exists { xf exists }"),
+                  ("xf exists", "{ xf !exists }"), ("when zz_nothere exists { xf exists }", "xf exists")][(i // 3) % 4]
+            mk = lambda b: ("rule zshared %s\n" % b) if b.startswith(("when", "{")) else ("rule zshared { %s }\n" % b)
+            rules_a, r2 = rules + mk(zo[0]), r2 + mk(zo[1])
             if len(set(_re.findall(r"^rule (\w+)", r2, _re.M))) == len(_re.findall(r"^rule (\w+)", r2, _re.M)):
+                files = dict(files, **{"r.guard": rules_a})
+                rules = rules_a
+                row["rules"] = rules
                 f2 = dict(files, **{"r2.guard": r2})
                 b2 = ["validate", "-r", "{DIR}/r.guard", "-r", "{DIR}/r2.guard", "-d", "{DIR}/d.json"]
                 row["two"] = {"S-all": add({"argv": b2 + ["-S", "all"], "files": f2}),
@@ -2736,6 +2777,22 @@ def ref_function(name, args, raw_args):
                 else:
                     return ("err",)
         return out
+    if name == "parse_char":
+        out = []
+        for v in args:
+            if isinstance(v, bool):
+                continue
+            if isinstance(v, int):
+                if 0 <= v <= 9:
+                    out.append(str(v))
+                else:
+                    return ("err",)
+            elif is_str(v):
+                if len(v.encode("utf-8")) > 1:
+                    return ("err",)
+                if v:
+                    out.append(v)
+        return out
     if name == "parse_epoch":
         out = []
         for v in args:
@@ -2768,7 +2825,9 @@ C18_DOC = {"s": ["abc", "Hello World", "", "10", "-7", "x%20y%2Fz", "true", "FAL
            "m": {"a": "x", "b": "y"}, "mixed": ["a", 1, True, None, "b", [1], {"q": 1}], "one": "abcdef", "e": [],
            "json": "{\"a\": [1, 2.5, \"s\", true, null], \"b\": {\"c\": \"d\"}}", "ints": ["1", "2", "30"], "strs": ["a", "b", "c"],
            # lists whose members are empty or end / start with a delimiter (joins must keep them)
-           "tails": ["a", "b", ""], "delims": ["x", "y,", ",z"], "empties": ["", ""], "dashes": ["-", "a-", " | ", "--"], "single": [""]}
+           "tails": ["a", "b", ""], "delims": ["x", "y,", ",z"], "empties": ["", ""], "dashes": ["-", "a-", " | ", "--"], "single": [""],
+           # `+` is not an escape in percent-encoding; integers that only differ from a digit by a multiple of 2^32
+           "plus": ["a+b%20c", "+", "1+1", "%2B+"], "wide": [4294967301, 8589934592, -4294967293, 4294967296, 4294967305], "digits": [0, 5, 9]}
 
 
 C18_LITS = {"lvs": "abc", "lvl": ["a", "b", ""], "lvi": 5, "lvb": True}
@@ -2777,10 +2836,11 @@ C18_LETS = 'let lvs = "abc"\nlet lvl = ["a", "b", ""]\nlet lvi = 5\nlet lvb = tr
 
 def c18_cases(ctx, rng):
     fs = ["count", "to_upper", "to_lower", "url_decode", "substring", "join", "json_parse", "parse_int", "parse_float",
-          "parse_string", "parse_boolean", "parse_epoch", "regex_replace"]
+          "parse_string", "parse_boolean", "parse_epoch", "regex_replace", "parse_char"]
     queries = ["s[*]", "n[*]", "f[*]", "b[*]", "mixed[*]", "one", "strs[*]", "ints[*]", "json", "zz", "s[*].zz", "e[*]", "m.*",
                "mixed", "z", "s[0]", "s[3]", "s[4]", "s[5]", "s[6]", "s[7]", "s[8]", "s[9]", "s[15]", "s[16]", "s[17]", "some s[*].zz",
-               "tails[*]", "delims[*]", "empties[*]", "dashes[*]", "single[*]",
+               "tails[*]", "delims[*]", "empties[*]", "dashes[*]", "single[*]", "plus[*]", "wide[*]", "digits[*]", "wide[0]", "wide[2]", "n[0]", "n[1]",
+               "s[11]", "s[2]",
                # variables bound to literals (their values are `Literal` query results)
                "%lvs", "%lvl", "%lvi", "%lvb"]
     cases = []
@@ -3584,6 +3644,45 @@ def run_C19(ctx):
                         mut_meta.append((i, r["Type"].replace("::", "_").lower(), rn, p, v, retyped))
         if len(res.samples) < 2:
             res.add_sample({"template": t, "emitted": o["stdout"], "verdicts": obs["rules"]})
+    # (b) YAML templates with short-form intrinsic tags: rulegen may refuse them, but rules it does emit must PASS on the
+    # template as `validate` reads it (the tags expand to their long forms there)
+    tag_t = []
+    for k in range(6):
+        vals = ["!Ref NameParam", "!GetAtt Other.Arn", "!Sub \"${X}-y\"", "!Join [\"-\", [a, b]]", "plain", "7"]
+        props_ = "".join("      P%d: %s\n" % (j, vals[(k + j) % len(vals)]) for j in range(3))
+        tag_t.append("Resources:\n  b:\n    Type: AWS::S3::Bucket\n    Properties:\n%s  c:\n    Type: AWS::S3::Bucket\n    Properties:\n%s" % (props_, props_))
+    touts = vlib.run_cli_many([{"argv": ["rulegen", "-t", "{DIR}/t.yaml"], "files": {"t.yaml": t_}} for t_ in tag_t])
+    vjobs, vown = [], []
+    for t_, o_ in zip(tag_t, touts):
+        res.evaluations += 1
+        res.stats["c19-tagged-template-rulegen-exit:%s" % o_["code"]] += 1
+        if o_["code"] == 0 and o_["stdout"].strip():
+            vjobs.append({"argv": ["validate", "-r", "{DIR}/g.guard", "-d", "{DIR}/t.yaml", "-S", "all"], "files": {"g.guard": o_["stdout"], "t.yaml": t_}})
+            vown.append((t_, o_))
+    for (t_, o_), vo in zip(vown, vlib.run_cli_many(vjobs)):
+        if vo["code"] != 0:
+            res.judge_failures.append({"what": "rules generated from a template with short-form tags do not PASS on it: validate exits %s" % vo["code"],
+                                       "class": "c19-tagged-template", "template": t_, "emitted": o_["stdout"][:1500], "stdout": vo["stdout"][:600]})
+    # (c) `--output FILE`: the file holds exactly the generated rules, whatever it held before
+    ojobs = []
+    for t in temps[:6]:
+        tj = json.dumps(t)
+        old_ = "# previously generated\n" + "rule old_rule_%d { this exists }\n" * 1 % 0 + "rule stale { this exists\n this !empty }\n" * 40
+        ojobs.append({"argv": ["rulegen", "-t", "{DIR}/t.json"], "files": {"t.json": tj}})
+        ojobs.append({"argv": ["rulegen", "-t", "{DIR}/t.json", "-o", "{DIR}/out.guard"], "files": {"t.json": tj, "out.guard": old_}, "read_back": ["out.guard"]})
+        ojobs.append({"argv": ["rulegen", "-t", "{DIR}/t.json", "-o", "{DIR}/fresh.guard"], "files": {"t.json": tj}, "read_back": ["fresh.guard"]})
+    oouts = vlib.run_cli_many(ojobs)
+    for k in range(0, len(oouts), 3):
+        a, b, c_ = oouts[k], oouts[k + 1], oouts[k + 2]
+        res.evaluations += 1
+        if a["code"] != 0:
+            continue
+        for nm, o_ in (("out.guard", b), ("fresh.guard", c_)):
+            got = (o_.get("read_back") or {}).get(nm)
+            if o_["code"] != 0 or got is None or got.strip() != a["stdout"].strip():
+                res.judge_failures.append({"what": "rulegen -o %s: the file does not hold the generated rules (exit %s, %s)" % (
+                                               nm, o_["code"], "missing" if got is None else "%d bytes vs %d on stdout" % (len(got), len(a["stdout"]))),
+                                           "class": "c19-output-file", "template": ojobs[k]["files"]["t.json"], "emitted": a["stdout"][:800], "file": (got or "")[:800]})
     mresp2 = ctx.hp.map(mut_jobs)
     for (i, rname, rn, p, v, fresh), r in zip(mut_meta, mresp2):
         res.evaluations += 1
@@ -4081,7 +4180,7 @@ def run_C08(ctx):
         fmt = rng.choice(["json", "json", "yaml-block", "yaml-flow"])
         data = json.dumps(doc) if fmt == "json" else _yaml.safe_dump(doc, default_flow_style=(fmt == "yaml-flow"), allow_unicode=True)
         other = gen.G(ctx.seed * 31 + i).rules_file(doc, depth=1) if rng.random() < 0.5 else data
-        kind = rng.choice(["v-rules", "v-rules", "v-data", "v-data", "v-both", "v-params", "v-payload", "t-rules", "t-tests", "pt", "rulegen", "nest", "cfn-odd", "cfn-odd", "trivial-doc", "tf-odd"])
+        kind = rng.choice(["v-rules", "v-rules", "v-data", "v-data", "v-both", "v-params", "v-payload", "t-rules", "t-tests", "pt", "rulegen", "nest", "cfn-odd", "cfn-odd", "trivial-doc", "tf-odd", "ext-odd"])
         if i < 3:
             kind = "tf-odd"          # the Terraform-plan console reporter always gets its canonical inputs (F-C08-3)
         mut = lambda t: c08_mutate(rng, t, other) if rng.random() < 0.8 else c08_mutate(rng, c08_mutate(rng, t, other).decode("utf-8", "replace"), other)
@@ -4100,7 +4199,11 @@ def run_C08(ctx):
             payload = json.dumps({"rules": [rules], "data": [data]})
             s.update(cmd="validate", files={}, stdin=mut(payload), argv=["validate", "--payload"] + sflags)
         elif kind in ("t-rules", "t-tests"):
-            tests = json.dumps([{"name": "c", "input": doc, "expectations": {"rules": {"r0": "PASS", "nope": "FAIL"}}}])
+            # expectations of every spelling (only PASS / FAIL / SKIP are statuses), rule names that do not exist, odd shapes
+            ev_ = lambda: rng.choice(["PASS", "FAIL", "SKIP", "PASS", "FAIL", "PASSED", "pass", "", "Ok", 1, None, True, ["PASS"]])
+            names_ = _re.findall(r"^rule (\w+)", rules, _re.M)[:3] or ["r0"]
+            tests = json.dumps([{"name": "c", "input": doc, "expectations": {"rules": dict([(nm_, ev_()) for nm_ in names_] + [("nope", "FAIL")])}},
+                                {"name": "c2", "input": doc, "expectations": {"rules": {names_[0]: ev_()}}}])
             if rng.random() < 0.5:
                 tests = _yaml.safe_dump(json.loads(tests))
             r_ = mut(rules) if kind == "t-rules" else rules
@@ -4122,6 +4225,20 @@ def run_C08(ctx):
                 s.update(cmd="test", files={"r.guard": rules, "t.yaml": td}, argv=["test", "-r", "{DIR}/r.guard", "-t", "{DIR}/t.yaml"])
             else:
                 s.update(cmd="rulegen", files={"t.yaml": td}, argv=["rulegen", "-t", "{DIR}/t.yaml"])
+        elif kind == "ext-odd":
+            # every supported file extension for rules (.guard, .ruleset) and data (.yaml .yml .json .jsn .template), files in
+            # directories, rules that fail at FILE level (the implicit `default` rule) - through every output format
+            rext = rng.choice([".ruleset", ".ruleset", ".guard"])
+            dext = rng.choice([".yaml", ".yml", ".json", ".jsn", ".template"])
+            body = "zz_nothere exists <<file level>>\nzz_other == 1 or zz_third is_string\n" + rules
+            fmt_ = rng.choice([["--structured", "-o", "junit", "-S", "none"], ["--structured", "-o", "sarif", "-S", "none"], ["--structured", "-o", "json", "-S", "none"],
+                               ["-o", "json"], ["-o", "yaml"], ["-S", "all"], ["-S", "all", "-v"], []])
+            if rng.random() < 0.5:
+                s.update(cmd="validate", files={"rr/policy" + rext: body, "dd/doc" + dext: data},
+                         argv=["validate", "-r", "{DIR}/rr", "-d", "{DIR}/dd"] + fmt_)
+            else:
+                s.update(cmd="validate", files={"policy" + rext: body, "doc" + dext: data},
+                         argv=["validate", "-r", "{DIR}/policy" + rext, "-d", "{DIR}/doc" + dext] + fmt_)
         elif kind == "tf-odd":
             # documents shaped like `terraform show -json` plans (top-level `resource_changes`): the console reporter has a
             # renderer of its own for them
